@@ -1522,3 +1522,7 @@ val all_ended : estate -> bool
 val live_records : estate -> nat
 
 val open_streams : estate -> nat
+
+val bUFWRITER : nat
+
+val k_BODY : nat
